@@ -63,7 +63,7 @@ def gen_knn_case(rng, tier, *, model=None, metrics=None, max_n=None, gclasses=No
     if allow_pre and rng.random() < 0.25:
         # pre-computed distances.  unsupervised: N x N matrix of a larger dataset, shuffled training subset, queries anywhere.
         # KNN-supervised demands an n_train x n_train matrix: training = a permutation of 0..n-1, validation/query indices inside it.
-        mk = gen.pick(rng, ["M1", "M2", "M3", "MB", "MN", "MD"] if model == "unsup" else ["M1", "M2", "M3", "MB", "MN"])
+        mk = gen.pick(rng, ["M1", "M2", "M3", "MB", "MN", "MD", "MZ"] if model == "unsup" else ["M1", "M2", "M3", "MB", "MN", "MZ"])
         case.pop("int_features", None)
         case.pop("I_onthefly", None)
         if model == "knn":
@@ -73,6 +73,8 @@ def gen_knn_case(rng, tier, *, model=None, metrics=None, max_n=None, gclasses=No
         else:
             N = n + int(rng.integers(0, 8))
             I = rng.permutation(N)[:n]
+            if rng.random() < 0.1:
+                I = rng.integers(0, N, size=n)            # with-replacement resample
             IV = None
         D = gen.make_matrix(rng, N, mk)
         IQ = rng.integers(0, N, size=len(case["Q"]))
